@@ -77,6 +77,12 @@ type ClientSc struct {
 	DiscoverMode int `json:"discover_mode,omitempty"`
 	// Cluster: the client is created through DialClusterContext (the other connect entry point)
 	Cluster bool `json:"cluster,omitempty"`
+	// DefaultDialer: no WithDialerUnsafe: the library's own dialer closure runs and reaches the simulated network
+	// through the rewriter's tls.Dialer seam
+	DefaultDialer bool `json:"default_dialer,omitempty"`
+	// DialCtxCancelled: the context given to Dial is cancelled as soon as Dial has returned (the usual
+	// "ctx, cancel := WithTimeout(...); defer cancel()" around a Dial): later re-dials must not depend on it
+	DialCtxCancelled bool `json:"dial_ctx_cancelled,omitempty"`
 }
 
 // callRec is the recorded history of one call.
@@ -138,6 +144,11 @@ func (w *clientWorld) dialer(ctx context.Context) (net.Conn, error) {
 	var cs ConnSc
 	if i < len(w.sc.Conns) {
 		cs = w.sc.Conns[i]
+	}
+	if err := ctx.Err(); err != nil {
+		// a real dialer gives up when its context is done
+		w.s.Eventf("dial %d refused: context done", i)
+		return nil, fmt.Errorf("dial sim: %w", err)
 	}
 	if cs.DialFail && !w.quiet {
 		w.s.Fault("dial-fail")
@@ -496,18 +507,28 @@ func (w *clientWorld) start(opts ...kmipclient.Option) {
 	ready := false
 	callersDone := 0
 	w.s.Spawn("dial", func() {
-		o := []kmipclient.Option{kmipclient.WithDialerUnsafe(w.dialer)}
+		var o []kmipclient.Option
+		if sc.DefaultDialer {
+			simrt.DialHook = func(ctx context.Context, network, addr string) (net.Conn, error) { return w.dialer(ctx) }
+		} else {
+			o = append(o, kmipclient.WithDialerUnsafe(w.dialer))
+		}
 		if sc.Enforce {
 			o = append(o, kmipclient.EnforceVersion(kmip.V1_4))
 		}
 		o = append(o, opts...)
+		dialCtx, cancelDial := context.WithCancel(context.Background())
 		var c *kmipclient.Client
 		var err error
 		if sc.Cluster {
-			c, err = kmipclient.DialClusterContext(context.Background(), []string{"sim", "sim-b"}, append(o, kmipclient.WithRetryTimeout(time.Second))...)
+			c, err = kmipclient.DialClusterContext(dialCtx, []string{"sim", "sim-b"}, append(o, kmipclient.WithRetryTimeout(time.Second))...)
 		} else {
-			c, err = kmipclient.DialContext(context.Background(), "sim", o...)
+			c, err = kmipclient.DialContext(dialCtx, "sim", o...)
 		}
+		if sc.DialCtxCancelled {
+			cancelDial()
+		}
+		w.cancels = append(w.cancels, cancelDial)
 		w.client, w.dialErr = c, err
 		w.s.Eventf("dialled err=%v", err != nil)
 		ready = true
